@@ -87,6 +87,8 @@ static volatile uint64_t g_last_progress = (uint64_t)-1;
 static volatile int g_stall_ticks = 0;
 static int g_watchdog_s = 20;
 
+volatile uint64_t g_san_errors = 0;
+extern "C" void __asan_on_error() { g_san_errors++; }
 const char *signame(int sig) {
     switch (sig) {
     case SIGSEGV: return "SIGSEGV"; case SIGBUS: return "SIGBUS"; case SIGFPE: return "SIGFPE";
@@ -209,6 +211,8 @@ int main(int argc, char **argv) {
     std::set<Str> known_set; for (auto &k : split(known, ',')) if (!k.empty()) known_set.insert(k);
     long seed = getenv("VERIF_SEED") ? atol(getenv("VERIF_SEED")) : 0;
     mkdir("build", 0755); mkdir(tmpdir.c_str(), 0755); mkdir(evidence_dir.c_str(), 0755); mkdir(replays_dir.c_str(), 0755);
+    if (!secondary) { for (int i = 0; i < 12; i++) unlink(fmt("%s/%s-viol-%d.json", replays_dir.c_str(), id.c_str(), i).c_str()); }
+    else { for (int i = 0; i < 12; i++) unlink(fmt("%s/%s-viol-s%d.json", replays_dir.c_str(), id.c_str(), i).c_str()); }
     double t0 = now_s();
     if (deadline <= 0) deadline = tier == "quick" ? 100 : 1500;
     if (getenv("VERIF_DEADLINE_S")) deadline = atof(getenv("VERIF_DEADLINE_S"));
@@ -242,6 +246,11 @@ int main(int argc, char **argv) {
         unlink(p.c_str());
     }
     double wall = now_s() - t0;
+    if (all.st.get("harness_errors")) {
+        fprintf(stderr, "HARNESS-ERROR %llu oracle self-check failures, e.g.:\n", (unsigned long long)all.st.get("harness_errors"));
+        for (auto &v : all.st.sets["harness_error_examples"]) fprintf(stderr, "   %s\n", esc(v).c_str());
+        harness_error = true;
+    }
     // classify
     uint64_t n_unknown = 0, n_known = 0;
     std::map<Str, Violation> example;
